@@ -299,6 +299,7 @@ type Opts struct {
 	UnexportedMembers bool // union members whose Go name is unexported
 	NoMemberFirst     bool // no struct using union members before their unions
 	Deep              bool // a third package used by the root and by sub (a diamond of imports)
+	CaseTwins         bool // two unions whose names differ only by letter case (C07 only: TypeScript / gounions names may clash)
 	DashTags bool // some fields tagged json:"-"
 	NoTwinPkg bool // no second imported package named like the first
 	TagOptions bool // json tag options omitempty / string (C02 only: the generated types cannot express them)
@@ -454,10 +455,31 @@ func Random(id int, rng *rand.Rand, o Opts) *Prog {
 				{Name: "Count", Type: Basic("int"), Tag: `json:"count,string"`}, {Name: "Tags", Type: Slice(Basic("string")), Tag: `json:"tags,omitempty"`},
 				{Name: "Note", Type: Basic("string"), Tag: `json:",omitempty"`}, {Name: "Opt", Type: Ref("", "Thing"), Tag: `json:"opt,omitempty"`}}})
 		}
+		if o.CaseTwins {
+			add(Decl{K: "iface", Name: "HTTPEvent", IMethods: []string{"isHTTPEvent"}})
+			add(Decl{K: "iface", Name: "HttpEvent", IMethods: []string{"isHttpEvent"}})
+			add(Decl{K: "struct", Name: "Request", Fields: []Field{{Name: "URL", Type: Basic("string")}}, Methods: []Method{{Name: "isHTTPEvent"}, {Name: "isHttpEvent"}}})
+			add(Decl{K: "struct", Name: "Reply", Fields: []Field{{Name: "Code", Type: Basic("int")}}, Methods: []Method{{Name: "isHTTPEvent"}, {Name: "isHttpEvent"}}})
+			add(Decl{K: "struct", Name: "Exchange", Fields: []Field{{Name: "A", Type: Ref("", "HTTPEvent")}, {Name: "B", Type: Ref("", "HttpEvent")}}})
+		}
 		if !o.NoMemberFirst {
 			// members used directly BEFORE the unions they belong to, inside one value
 			add(Decl{K: "struct", Name: "MemberFirst", Fields: []Field{{Name: "First", Type: Ref("", "Circle")}, {Name: "Both", Type: Ref("", "Rect")}, {Name: "Then", Type: Ref("", "Shape")}, {Name: "Last", Type: Ref("", "Thing")}}})
 		}
+	}
+	if o.DashTags {
+		// `json:"-,"` names the key "-" (only the exact tag "-" hides a field)
+		add(Decl{K: "struct", Name: "DashKey", Fields: []Field{{Name: "Lo", Type: Basic("int"), Tag: `json:"-,"`}, {Name: "Hidden", Type: Basic("string"), Tag: `json:"-"`}, {Name: "Hi", Type: Basic("int")}}})
+	}
+	if o.Embedded {
+		// embedded NON-struct types are ordinary fields named after their type
+		add(Decl{K: "struct", Name: "EmbedsNamed", Fields: []Field{{Name: "Kind", Type: Ref("", "Kind"), Embedded: true}, {Name: "IntList", Type: Ref("", "IntList"), Embedded: true}, {Name: "Name", Type: Basic("string")}}})
+	}
+	if o.FixedArrays {
+		// a long fixed array of an enum whose zero value is not an exported member
+		la := Array(18, Ref("", "Score"))
+		add(Decl{K: "named", Name: "LongRow", Under: &la})
+		add(Decl{K: "struct", Name: "HasLong", Fields: []Field{{Name: "Row", Type: Ref("", "LongRow")}, {Name: "Inline", Type: Array(17, Basic("int"))}, {Name: "Both", Type: Slice(Basic("int"))}, {Name: "Fixed", Type: Array(3, Basic("int"))}}})
 	}
 	// containers of anonymous containers
 	add(Decl{K: "struct", Name: "Nested", Fields: []Field{{Name: "Cells", Type: Slice(Map(Basic("string"), Basic("int")))}, {Name: "Grid", Type: Slice(Slice(Basic("int")))},
